@@ -54,12 +54,12 @@ theorem stop_lands_on_event (cfg : DV.Loop.Cfg ℚ) (heps : 0 < cfg.eps) (htol :
 /-- **Termination by event is reported as a success with status 2**: a call that ended through a terminal event,
 without a fault in the nested call or in the callbacks, has status 2 — whatever the integrator, the events and
 the callbacks did before. -/
-theorem terminal_stop_reports_status_two (cfg : DV.LoopEv.CfgEv ℚ) (s : DV.Loop.Sys ℚ) (evs : List (Nat × ℚ)) (nEvents : Nat)
+theorem terminal_stop_reports_status_two (cfg : DV.LoopEv.CfgEv ℚ) (s : DV.Loop.Sys ℚ) (evs : List (Nat × ℚ)) (kn : List ℚ) (nEvents : Nat)
     (target : ℚ) (orc : DV.LoopEv.OracleEv ℚ) (fuel : Nat) (hne : s.ts ≠ [])
-    (hstop : (DV.LoopEv.integrateEv cfg s evs nEvents target orc fuel).stopped = true)
-    (hok : (DV.LoopEv.integrateEv cfg s evs nEvents target orc fuel).guardExit = true) :
-    (DV.LoopEv.integrateEv cfg s evs nEvents target orc fuel).sys.status = 2 :=
-  (DVP.LoopEv.integrateEv_outcome cfg s evs nEvents target orc fuel hne).2.2.1 hstop hok
+    (hstop : (DV.LoopEv.integrateEv cfg s evs kn nEvents target orc fuel).stopped = true)
+    (hok : (DV.LoopEv.integrateEv cfg s evs kn nEvents target orc fuel).guardExit = true) :
+    (DV.LoopEv.integrateEv cfg s evs kn nEvents target orc fuel).sys.status = 2 :=
+  (DVP.LoopEv.integrateEv_outcome cfg s evs kn nEvents target orc fuel hne).2.2.1 hstop hok
 
 /-- **The stop lands on the event and nothing beyond it is kept.**  After a terminal stop the recorded samples
 are: the samples `s'.ts` recorded before the event step (they extend the samples at the start of the call; the end
@@ -67,24 +67,24 @@ of the event step is NOT among them), followed by the steps `news` of the nested
 strictly toward the event time `root`, never pass it, and, when the nested loop ends through its guard, end within
 `max eps tolEps` of it.  Hypothesis: the integrator honours its contract inside the nested calls. -/
 theorem terminal_stop_lands_on_event (cfg : DV.LoopEv.CfgEv ℚ) (heps : 0 < cfg.loop.eps) (htol : 0 < cfg.loop.tolEps)
-    (hhalf : 0 < cfg.loop.half) (s : DV.Loop.Sys ℚ) (evs : List (Nat × ℚ)) (nEvents : Nat)
+    (hhalf : 0 < cfg.loop.half) (s : DV.Loop.Sys ℚ) (evs : List (Nat × ℚ)) (kn : List ℚ) (nEvents : Nat)
     (target : ℚ) (orc : DV.LoopEv.OracleEv ℚ) (fuel : Nat) (hne : s.ts ≠ [])
     (hnest : ∀ k t h, DVP.Loop.OracleOK (orc k t h).nested ∧ DVP.Loop.CbsNonzero (orc k t h).nested ∧ DVP.Loop.NoCbAssign (orc k t h).nested)
-    (hstop : (DV.LoopEv.integrateEv cfg s evs nEvents target orc fuel).stopped = true) :
+    (hstop : (DV.LoopEv.integrateEv cfg s evs kn nEvents target orc fuel).stopped = true) :
     ∃ (s' : DV.Loop.Sys ℚ) (root : ℚ) (N : DV.Loop.LoopOut ℚ) (news : List ℚ),
       (∃ mid, s'.ts = mid ++ s.ts) ∧
-      (DV.LoopEv.integrateEv cfg s evs nEvents target orc fuel).sys.ts = news.reverse ++ s'.ts ∧
+      (DV.LoopEv.integrateEv cfg s evs kn nEvents target orc fuel).sys.ts = news.reverse ++ s'.ts ∧
       DVP.Loop.Steps root s'.tcur news ∧
-      (DV.LoopEv.integrateEv cfg s evs nEvents target orc fuel).nestedReqs = N.reqs ∧
-      (N.guardExit = true → |root - (DV.LoopEv.integrateEv cfg s evs nEvents target orc fuel).sys.tcur| < max cfg.loop.eps cfg.loop.tolEps) := by
+      (DV.LoopEv.integrateEv cfg s evs kn nEvents target orc fuel).nestedReqs = N.reqs ∧
+      (N.guardExit = true → |root - (DV.LoopEv.integrateEv cfg s evs kn nEvents target orc fuel).sys.tcur| < max cfg.loop.eps cfg.loop.tolEps) := by
   obtain ⟨s', root, k', t', h', nf, hmid, hne', hdt', e1, e2⟩ :=
-    (DVP.LoopEv.integrateEv_outcome cfg s evs nEvents target orc fuel hne).2.2.2 hstop
+    (DVP.LoopEv.integrateEv_outcome cfg s evs kn nEvents target orc fuel hne).2.2.2 hstop
   obtain ⟨ho, hc, hn⟩ := hnest k' t' h'
   obtain ⟨news, g1, g2, g3⟩ := DVP.C03.integrate_covers_span cfg.loop heps htol hhalf s' root (orc k' t' h').nested nf hdt' ho hc (Or.inl hn)
   refine ⟨s', root, DV.Loop.integrate cfg.loop s' root (orc k' t' h').nested nf, news, hmid, by rw [e1, g1], g2, e2, fun hg => ?_⟩
   have := g3 hg
   -- the current time only depends on the (non-empty) list of samples
-  have htc : (DV.LoopEv.integrateEv cfg s evs nEvents target orc fuel).sys.tcur =
+  have htc : (DV.LoopEv.integrateEv cfg s evs kn nEvents target orc fuel).sys.tcur =
       (DV.Loop.integrate cfg.loop s' root (orc k' t' h').nested nf).sys.tcur := by
     unfold DV.Loop.Sys.tcur
     rw [e1, g1]
@@ -96,14 +96,15 @@ theorem terminal_stop_lands_on_event (cfg : DV.LoopEv.CfgEv ℚ) (heps : 0 < cfg
 
 /-- non-vacuity: a plain step, then a step with a terminal crossing at `9/20`; the step `[3/10, 6/10]` is dropped,
 the nested call walks to the event in two steps, status 2, the event is recorded, `dt` is the one the integrator
-proposed for the dropped step -/
+proposed for the dropped step, the dense-output container has one piece per recorded step (C12:
+`dense_pieces_are_the_recorded_steps`) -/
 example :
     let cfg : DV.LoopEv.CfgEv ℚ := { loop := { eps := 1/2^50, tolEps := 1/2^47, half := 1/2 }, dupTol := 1/2^30 }
     let p : Probe ℚ := { root := 9/20, success := true, gm := -1, gc := 0, gp := 1, fields := [], direction := 0, terminal := true }
     let orc : DV.LoopEv.OracleEv ℚ := fun k _ h =>
       { base := { ret := .ok h h }, probes := if k = 1 then [p] else [], nested := fun _ _ h => { ret := .ok h h }, nestedFuel := 10 }
-    let o := DV.LoopEv.integrateEv cfg (DV.Loop.construct 0 1 (3/10)) [] 1 1 orc 50
+    let o := DV.LoopEv.integrateEv cfg (DV.Loop.construct 0 1 (3/10)) [] [] 1 1 orc 50
     o.stopped = true ∧ o.guardExit = true ∧ o.sys.status = 2 ∧ o.sys.ts = [9/20, 3/8, 3/10, 0] ∧
-      o.book.events = [(0, 9/20)] ∧ o.sys.dt = 3/10 := by decide +kernel
+      o.book.events = [(0, 9/20)] ∧ o.sys.dt = 3/10 ∧ o.knots = [3/10, 3/8, 9/20] := by decide +kernel
 
 end DVP.C09
